@@ -119,8 +119,18 @@ def build_traces(path, tier, seed):
         x = np.asarray(x, dtype=float)
         v = i % 8
         N, fas, fr = vs[v]
+        if i % 4 == 2:
+            # history: the object held a record of another length whose spectrum / frequencies were read; after the
+            # replacement the frequencies are read BEFORE the spectrum (default padding)
+            o = eqsig.AccSignal(np.cos(np.arange(3 * n + 5) / 2.0), dt)
+            _ = (o.fa_frequencies, o.fa_spectrum, o.smooth_fa_spectrum)
+            o.reset_values(x.copy())
+            fr = np.array(o.fa_frequencies)
+            fas = np.array(o.fa_spectrum)
+            N = next_pow2(n)
+            v = 8
         objfas, objfr = [], []
-        if v in (6, 7):      # array-level function against the object-level result with the same transform length
+        if v in (6, 7) and v != 8:      # array-level function against the object-level result with the same transform length
             o = eqsig.AccSignal(x, dt)
             if v == 6:
                 o.gen_fa_spectrum(n=n)
